@@ -85,9 +85,9 @@ def r19c(chk, rid='R19.c'):
     m = chk.repo.mod(INIT)
     g = ast.unparse(m.get('getUrls'))
     r = ast.unparse(m.get('replaceUrls'))
-    chk.ob(rid, INIT, 'getUrls', 'imports first: rule.href for IMPORT_RULE rules, then the style URLs', 'rule.href for rule in sheet if rule.type == rule.IMPORT_RULE' in g and 'itertools.chain(imports, other)' in g, '')
-    chk.ob(rid, INIT, 'getUrls', 'style URLs come from _uri_values over _style_declarations', '_style_declarations(sheet)' in g and '_uri_values(style)' in g and 'value.uri' in g, '')
-    chk.ob(rid, INIT, 'replaceUrls', 'same import predicate (plus ignoreImportRules) and same enumeration', 'rule.type == rule.IMPORT_RULE and (not ignoreImportRules)' in r and '_uri_values' in r and '_style_declarations(sheet)' in r, '')
+    chk.ob(rid, INIT, 'getUrls', 'imports first: rule.href for IMPORT_RULE rules, then the style URLs', 'rule.href for rule in sheet if rule.type == rule.IMPORT_RULE' in g and 'itertools.chain(imports, other)' in g, '', shape=True)
+    chk.ob(rid, INIT, 'getUrls', 'style URLs come from _uri_values over _style_declarations', '_style_declarations(sheet)' in g and '_uri_values(style)' in g and 'value.uri' in g, '', shape=True)
+    chk.ob(rid, INIT, 'replaceUrls', 'same import predicate (plus ignoreImportRules) and same enumeration', 'rule.type == rule.IMPORT_RULE and (not ignoreImportRules)' in r and '_uri_values' in r and '_style_declarations(sheet)' in r, '', shape=True)
     sd = m.get('_style_declarations')
     top = [s for s in sd.body if not (isinstance(s, ast.Expr) and isinstance(s.value, ast.Constant))]
     loops = [s for s in top if isinstance(s, ast.For) and 'cssRules' in text(s.iter)]
@@ -96,8 +96,8 @@ def r19c(chk, rid='R19.c'):
     chk.ob(rid, INIT, '_style_declarations', 'yields the own style of every object that has one, whether or not it has nested rules', len(own) == 1,
            'an object with both cssRules and style (an @page rule with margin boxes) loses its own declarations: their URLs are neither listed nor replaced')
     uv = ast.unparse(m.get('_uri_values'))
-    chk.ob(rid, INIT, '_uri_values', 'visits every property (all=True), not only the effective ones', 'style.getProperties(all=True)' in uv, 'URLs in overridden declarations are skipped')
-    chk.ob(rid, INIT, '_uri_values', "filters on value.type == 'URI'", "value.type == 'URI'" in uv, '')
+    chk.ob(rid, INIT, '_uri_values', 'visits every property (all=True), not only the effective ones', 'style.getProperties(all=True)' in uv, 'URLs in overridden declarations are skipped', shape=True)
+    chk.ob(rid, INIT, '_uri_values', "filters on value.type == 'URI'", "value.type == 'URI'" in uv, '', shape=True)
 
 
 def r19d(chk, rid='R19.d'):
@@ -105,18 +105,18 @@ def r19d(chk, rid='R19.d'):
     m = chk.repo.mod(INIT)
     call = m.get('Replacer.__call__')
     src = ast.unparse(call)
-    chk.ob(rid, INIT, 'Replacer.__call__', 'absolute, scheme-relative and root-relative URLs are kept', "if scheme or location or path.startswith('/'):" in src and 'return uri' in src, '')
-    chk.ob(rid, INIT, 'Replacer.__call__', 'the URL is split with urlsplit before it is rebased', 'urllib.parse.urlsplit(uri)' in src, '')
-    chk.ob(rid, INIT, 'Replacer.__call__', 'base and relative path are joined and normalised', 'os.path.normpath(os.path.join(self.base, path, filename))' in src, '')
+    chk.ob(rid, INIT, 'Replacer.__call__', 'absolute, scheme-relative and root-relative URLs are kept', "if scheme or location or path.startswith('/'):" in src and 'return uri' in src, '', shape=True)
+    chk.ob(rid, INIT, 'Replacer.__call__', 'the URL is split with urlsplit before it is rebased', 'urllib.parse.urlsplit(uri)' in src, '', shape=True)
+    chk.ob(rid, INIT, 'Replacer.__call__', 'base and relative path are joined and normalised', 'os.path.normpath(os.path.join(self.base, path, filename))' in src, '', shape=True)
     eb = m.get('Replacer.extract_base')
     calls = [c for c in ast.walk(eb) if isinstance(c, ast.Call) and call_name(c) == 'urllib.parse.urlsplit']
     ok = len(calls) == 1 and len(calls[0].args) == 1 and isinstance(calls[0].args[0], ast.Name) and calls[0].args[0].id == eb.args.args[0].arg
     chk.ob(rid, INIT, 'Replacer.extract_base', 'the base is derived from the path component of the href', ok,
            'for an absolute import href the scheme and host become part of the directory: relative URLs are rewritten to http%3A/host/...')
     src = ast.unparse(eb)
-    chk.ob(rid, INIT, 'Replacer.extract_base', 'directory part of that path', 'os.path.split(raw_path)' in src and 'return base_path' in src, '')
+    chk.ob(rid, INIT, 'Replacer.extract_base', 'directory part of that path', 'os.path.split(raw_path)' in src and 'return base_path' in src, '', shape=True)
     init = ast.unparse(m.get('Replacer.__init__'))
-    chk.ob(rid, INIT, 'Replacer.__init__', 'stores extract_base(base)', 'self.base = self.extract_base(base)' in init, '')
+    chk.ob(rid, INIT, 'Replacer.__init__', 'stores extract_base(base)', 'self.base = self.extract_base(base)' in init, '', shape=True)
 
 
 def r19e(chk, rid='R19.e'):
@@ -138,10 +138,10 @@ def r19e(chk, rid='R19.e'):
     if falls != 3:
         raise AnalysisError(f'_resolve_import: {falls} fall-backs found (3 expected)')
     src = ast.unparse(fn)
-    chk.ob(rid, INIT, '_resolve_import', 'URLs are rebased relative to the import href, nested @import rules untouched', 'replaceUrls(importedSheet, Replacer(rule.href), ignoreImportRules=True)' in src, '')
-    chk.ob(rid, INIT, '_resolve_import', 'nested imports are flattened first', 'importedSheet = resolveImports(rule.styleSheet)' in src, '')
-    chk.ob(rid, INIT, '_resolve_import', 'rules go into the media wrapper, or straight into the target', 'imp_target = media_proxy or target' in src and 'imp_target.add(r)' in src and 'target.add(media_proxy)' in src, '')
+    chk.ob(rid, INIT, '_resolve_import', 'URLs are rebased relative to the import href, nested @import rules untouched', 'replaceUrls(importedSheet, Replacer(rule.href), ignoreImportRules=True)' in src, '', shape=True)
+    chk.ob(rid, INIT, '_resolve_import', 'nested imports are flattened first', 'importedSheet = resolveImports(rule.styleSheet)' in src, '', shape=True)
+    chk.ob(rid, INIT, '_resolve_import', 'rules go into the media wrapper, or straight into the target', 'imp_target = media_proxy or target' in src and 'imp_target.add(r)' in src and 'target.add(media_proxy)' in src, '', shape=True)
     mp = ast.unparse(m.get('_check_media_proxy'))
-    chk.ob(rid, INIT, '_check_media_proxy', "no wrapper for media 'all'; otherwise the combinability check precedes the wrapper", "if rule.media.mediaText == 'all':\n        return" in mp and mp.index('MediaCombineDisallowed.check(importedSheet)') < mp.index('css.CSSMediaRule(rule.media.mediaText)'), '')
+    chk.ob(rid, INIT, '_check_media_proxy', "no wrapper for media 'all'; otherwise the combinability check precedes the wrapper", "if rule.media.mediaText == 'all':\n        return" in mp and mp.index('MediaCombineDisallowed.check(importedSheet)') < mp.index('css.CSSMediaRule(rule.media.mediaText)'), '', shape=True)
     ri = ast.unparse(m.get('resolveImports'))
-    chk.ob(rid, INIT, 'resolveImports', '@charset skipped, @import resolved, everything else added in document order', 'rule.type == rule.CHARSET_RULE' in ri and '_resolve_import(rule, target)' in ri and 'target.add(rule)' in ri and 'for rule in sheet.cssRules' in ri, '')
+    chk.ob(rid, INIT, 'resolveImports', '@charset skipped, @import resolved, everything else added in document order', 'rule.type == rule.CHARSET_RULE' in ri and '_resolve_import(rule, target)' in ri and 'target.add(rule)' in ri and 'for rule in sheet.cssRules' in ri, '', shape=True)
